@@ -27,6 +27,7 @@ def run(S):
     core = S.core
     K = 3 if S.tier == 'quick' else 4
     fn = S.find_fn(core, 'PrettyPrinter::convert_import_items')
+    fn.ensure_parsed()
     K_PATH, K_REN, K_ID = kt.k('ImportItemPath'), kt.k('RenamedImportItem'), kt.k('Ident')
     K_LC, K_BC = kt.k('LineComment'), kt.k('BlockComment')
     found = []
@@ -89,14 +90,18 @@ def run(S):
                     tags.append(tag)
                 pr, cfg = pp.printer(m)
                 reorder = cfg.get('reorder_import_items')
+                # newer signature: the caller (convert_import) passes whether the import is free of comments
+                gated_by_caller = len(fn.params) >= 4
+                allow = z3.Bool('can_reorder') if gated_by_caller else None
+                extra = [allow] if gated_by_caller else []
 
                 def describe(mdl):
-                    return dict(reorder=model_bool(mdl, reorder),
+                    return dict(reorder=model_bool(mdl, reorder), **({'can_reorder': model_bool(mdl, allow)} if gated_by_caller else {}),
                                 items=[dict(tag=t, text=n.into_text().concrete(mdl),
                                             kind=kt.names[model_int(mdl, n.kind)] if is_sym(n.kind) else kt.names[n.kind]) for n, t in zip(nodes, tags)],
                                 passed=[n.into_text().concrete(mdl) for n in rec.get('seq', [])])
                 try:
-                    m.call_fn(fn, [pr, pp.context(), Vec(nodes)])
+                    m.call_fn(fn, [pr, pp.context(), Vec(nodes)] + extra)
                 except Panic as p:
                     S.absorb(m)
                     ctx.must_hold(False, 'panic', lambda mdl: dict(describe(mdl), panic=p.msg))
@@ -108,6 +113,9 @@ def run(S):
                 ctx.must_hold(perm, 'not-a-permutation', describe)
                 ctx.must_hold(b_implies(b_not(reorder), same), 'reordered-without-request', describe)
                 has_comment = b_or(*[T.kind_in(n.kind, {K_LC, K_BC}) for n in nodes])
+                if gated_by_caller:
+                    # the comment test is the caller's (decided in import.gate through convert_import); here: not allowed => unchanged
+                    has_comment = b_not(allow)
                 names = [bound_name(n, t) for n, t in zip(nodes, tags)]
                 names = [x for x in names if x is not None]
                 dup = b_or(*[str_eq(names[i], names[j]) for i in range(len(names)) for j in range(i + 1, len(names))])
@@ -125,7 +133,7 @@ def run(S):
                         m2 = S.machine(core, STD, ctx, overrides={'process_iterable_impl': process2, 'print_doc': print_doc, 'ListStylist::<\'_>::new': stylist_new})
                         pr2 = m2.heap.alloc(m.load(pr))
                         try:
-                            m2.call_fn(fn, [pr2, pp.context(), Vec([nodes[j] for j in perm])])
+                            m2.call_fn(fn, [pr2, pp.context(), Vec([nodes[j] for j in perm])] + extra)
                         except Panic:
                             continue
                         seq2 = [m2.load(x) if isinstance(x, Ref) else x for x in rec2.get('seq', [])]
@@ -139,6 +147,8 @@ def run(S):
                 if not same:
                     ctx.witness('actually reordered')
                 ctx.witness('flag on but kept (comment)', b_and(reorder, has_comment, True))
+                if gated_by_caller and not same:
+                    ctx.must_hold(allow, 'reordered-although-the-caller-forbids-it', describe)
                 ctx.witness('flag on but kept (duplicate)', b_and(reorder, dup))
             ob, ex = S.explore('import.items[%s]' % ''.join('pPro'[c] for c in combo),
                                'convert_import_items on %d nodes of shapes %s' % (k, [('path', 'a.b path', 'renamed', 'other (symbolic kind)')[c] for c in combo]),
@@ -190,6 +200,19 @@ def run(S):
     if extra:
         S.inconclusive.append('reorder_import_items is read outside convert_import_items: %r (the claim that nothing else depends on it no longer follows)' % extra)
     S.validation['readers_of_reorder_import_items'] = readers
+
+    # ---- gating through convert_import: a comment anywhere in the import pins the order --------------------------------
+    g_found = explore_gate(S)
+    for pos in sorted({i['comment_position'] for l, i in g_found}):
+        infos = [i for l, i in g_found if i['comment_position'] == pos]
+        w = None
+        for info in infos[:6]:
+            w = confirm_gate(S, info)
+            if w:
+                S.violation('import-reordered-despite-comment:' + pos, 'import reordering: %s' % w['what'], dict(api=w, model=info))
+                break
+        if not w:
+            S.inconclusive.append('import: no solver model for `reordered-despite-comment:%s` reproduced natively (%r)' % (pos, infos[0]))
 
     # ---- "sorted" means one order of the printed items: it must not depend on blanks that printing normalises ------------
     sp_found = explore_spacing(S, 2 if S.tier == 'quick' else 3)
@@ -298,6 +321,122 @@ def native_confirm(S, lab, info):
     return None
 
 
+COMMENT_POSITIONS = ['before-colon', 'after-colon', 'in-parens-before-items', 'between-items', 'inside-renamed-item', 'inside-item-path', 'after-items']
+
+
+def explore_gate(S):
+    """convert_import with the real convert_import_items: with the option on, an import that holds a comment anywhere keeps its order"""
+    kt = T.KT
+    core = S.core
+    fn = S.find_fn(core, 'PrettyPrinter::convert_import')
+    found = []
+    import itertools
+    sp = lambda t=' ': Node(kt.k('Space'), text=Str.lit(t))
+    for pos, line, paren in itertools.product(COMMENT_POSITIONS, (False, True), (False, True)):
+        if pos in ('in-parens-before-items', 'after-items') and not paren:
+            continue
+        if line and not paren and pos in ('between-items', 'inside-renamed-item', 'inside-item-path'):
+            continue            # a line break inside bare items ends the statement
+
+        def body(ctx, pos=pos, line=line, paren=paren):
+            rec = {}
+
+            def process(m, a, ci):
+                rec['seq'] = drain(m, get_iter(m, a[2]))
+                return Opaque('stylist', ())
+            m = S.machine(core, STD, ctx, overrides={'process_iterable_impl': process, 'print_doc': (lambda mm, a, ci: D.opaque_doc('items')),
+                                                      "ListStylist::<'_>::new": (lambda mm, a, ci: Opaque('stylist0', ())),
+                                                      'convert_expr': (lambda mm, a, ci: D.opaque_doc('source'))})
+            cm = Node(kt.k('LineComment'), text=Str.lit('//c')) if line else Node(kt.k('BlockComment'), text=Str.lit('/*c*/'))
+            after = sp('\n') if line else sp()
+
+            def ident(name):
+                c = z3.BitVec(name, 32)
+                ctx.assume(z3.And(z3.UGE(c, ord('a')), z3.ULE(c, ord('e'))))
+                return Node(kt.k('Ident'), text=Str((c,)))
+            # first item: renamed `x as y` (a comment may sit inside it); second: a path `p.q` (a comment may sit inside it)
+            i1_kids = [Node(kt.k('ImportItemPath'), children=[ident('n0')]), sp()]
+            if pos == 'inside-renamed-item':
+                i1_kids += [cm, after]
+            i1_kids += [Node(kt.k('As'), text=Str.lit('as')), sp(), ident('n0_new')]
+            item1 = Node(kt.k('RenamedImportItem'), children=i1_kids)
+            i2_kids = [ident('n1')]
+            if pos == 'inside-item-path':
+                i2_kids += [sp(), cm, after]
+            i2_kids += [Node(kt.k('Dot'), text=Str.lit('.')), ident('n1_b')]
+            item2 = Node(kt.k('ImportItemPath'), children=i2_kids)
+            between = [Node(kt.k('Comma'), text=Str.lit(',')), sp()]
+            if pos == 'between-items':
+                between += [cm, after]
+            items = Node(kt.k('ImportItems'), children=[item1] + between + [item2])
+            kids = [Node(kt.k('Import'), text=Str.lit('import')), sp(), Node(kt.k('Str'), text=Str.lit('"m"'))]
+            if pos == 'before-colon':
+                kids += [sp(), cm, after]
+            kids += [Node(kt.k('Colon'), text=Str.lit(':')), sp()]
+            if pos == 'after-colon':
+                kids += [cm, after]
+            if paren:
+                kids.append(Node(kt.k('LeftParen'), text=Str.lit('(')))
+                if pos == 'in-parens-before-items':
+                    kids += [cm, after]
+            kids.append(items)
+            if paren:
+                if pos == 'after-items':
+                    kids += [sp(), cm, after]
+                kids.append(Node(kt.k('RightParen'), text=Str.lit(')')))
+            node = Node(kt.k('ModuleImport'), children=kids)
+            pr, cfg = pp.printer(m)
+            reorder = cfg.get('reorder_import_items')
+
+            def describe(mdl):
+                return dict(comment_position=pos, line_comment=line, parenthesised=paren, reorder=model_bool(mdl, reorder),
+                            item1='%s as %s' % (item1.children[0].into_text().concrete(mdl), item1.children[-1].text.concrete(mdl)),
+                            item2='%s.%s' % (i2_kids[0].text.concrete(mdl), i2_kids[-1].text.concrete(mdl)))
+            try:
+                m.call_fn(fn, [pr, pp.context(), T.Ast('ModuleImport', node)])
+            except Panic as p:
+                S.absorb(m)
+                ctx.must_hold(False, 'gate-panic', lambda mdl: dict(describe(mdl), panic=p.msg))
+                return
+            S.absorb(m)
+            seq = [m.load(x) if isinstance(x, Ref) else x for x in rec.get('seq', [])]
+            order = [n for n in seq if n is item1 or n is item2]
+            ctx.must_hold(order == [item1, item2], 'reordered-despite-comment', describe)
+            ctx.witness('import with comment converted')
+        ob, ex = S.explore('import.gate[%s,%s,%s]' % (pos, 'line' if line else 'block', 'paren' if paren else 'bare'),
+                           'convert_import (real convert_import_items) on `import "m": x as y, p.q` with a %s comment %s%s: the items keep their order for '
+                           'every identifier text and both settings of the option' % ('line' if line else 'block', pos, ', parenthesised' if paren else ''), body)
+        for lab, mdl, info in ex.violations:
+            found.append((lab, info))
+    return found
+
+
+def confirm_gate(S, info):
+    cm = '// c\n' if info['line_comment'] else '/* c */ '
+    pos = info['comment_position']
+    a, b = info['item1'].split(' as ')
+    i1 = '%s %sas %s' % (a, cm if pos == 'inside-renamed-item' else '', b)
+    p, q = info['item2'].split('.')
+    i2 = '%s%s.%s' % (p, (' ' + cm) if pos == 'inside-item-path' else '', q)
+    items = i1 + ', ' + (cm if pos == 'between-items' else '') + i2
+    if info['parenthesised']:
+        items = '(' + (cm if pos == 'in-parens-before-items' else '') + items + ((' ' + cm) if pos == 'after-items' else '') + ')'
+    src = '#import "m.typ"' + ((' ' + cm) if pos == 'before-colon' else '') + ': ' + (cm if pos == 'after-colon' else '') + items + '\n'
+    if S.driver.call('erroneous', hexs(src))[1] == '1':
+        return None
+    r = S.driver.call('format', hexs(src), 80, 2, 1)
+    if r[0] != 'ok':
+        return None
+    out = unhexs(r[1])
+    ia, ib = out.find(a + ' '), out.find(p + '.')
+    if ia < 0 or ib < 0:
+        ia, ib = out.find(a), out.rfind(p)
+    if ia > ib:
+        return dict(api='Typstyle::format_content with reorder_import_items', source=src, output=out,
+                    what='an import holding a comment (%s) is reordered: %s -> %s' % (pos, show(src), show(out)))
+    return None
+
+
 def explore_spacing(S, K):
     """C03 mechanism: with reordering on, the order chosen must not depend on the source's spacing inside items,
     otherwise the formatted text (normalised spacing) is sorted differently by a second pass.
@@ -308,6 +447,7 @@ def explore_spacing(S, K):
     kt = T.KT
     core = S.core
     fn = S.find_fn(core, 'PrettyPrinter::convert_import_items')
+    fn.ensure_parsed()
     K_PATH, K_REN, K_ID = kt.k('ImportItemPath'), kt.k('RenamedImportItem'), kt.k('Ident')
     found = []
     import itertools
@@ -367,7 +507,7 @@ def explore_spacing(S, K):
                                                               "ListStylist::<'_>::new": (lambda mm, a, ci: Opaque('stylist0', ()))})
                     nodes = [build(chars[i], shapes[i], wides[i] and first_pass, longs[i], blanks[i]) for i in range(len(shapes))]
                     pr, cfg = pp.printer(m, cfg=Agg('Config', None, (2, 80, 2, True), pp.CFG_NAMES))
-                    m.call_fn(fn, [pr, pp.context(), Vec(nodes)])
+                    m.call_fn(fn, [pr, pp.context(), Vec(nodes)] + ([True] if len(fn.params) >= 4 else []))
                     S.absorb(m)
                     seq = [m.load(x) if isinstance(x, Ref) else x for x in rec['seq']]
                     orders.append([nodes.index(n) for n in seq])
